@@ -483,7 +483,35 @@ class Flow:
                 out.add(("global", f.module.name, name))
         for (val, site, keys, leaf) in self.local_mutations(f).get(name, []):
             out.add(self.mut_term(val, site, keys, leaf, f, env, depth))
+        if use is not None and f is not None and self._sorted_in_place(name, f, use):
+            # `name.sort()` with the default ordering, after the last change to the list and before this read
+            return fs(("ext", "builtins.sorted", (frozenset(out),), ()))
         return frozenset(out)
+
+    def _sorted_in_place(self, name, f, use):
+        body = f.node.body
+        at = None
+        for i, st in enumerate(body):
+            if isinstance(st, ast.Expr) and isinstance(st.value, ast.Call) and isinstance(st.value.func, ast.Attribute) and st.value.func.attr == "sort" \
+                    and isinstance(st.value.func.value, ast.Name) and st.value.func.value.id == name and not st.value.args and not st.value.keywords:
+                at = i
+        if at is None:
+            return False
+        later = body[at + 1:]
+        if not any(n is use for st in later for n in ast.walk(st)):
+            return False
+        for st in later:
+            for n in ast.walk(st):
+                if isinstance(n, ast.Name) and n.id == name and n is not use:
+                    par_store = isinstance(n.ctx, (ast.Store, ast.Del))
+                    if par_store:
+                        return False
+                if isinstance(n, ast.Call) and isinstance(n.func, ast.Attribute) and isinstance(n.func.value, ast.Name) and n.func.value.id == name \
+                        and n.func.attr in ("append", "extend", "insert", "reverse", "pop", "remove", "clear", "sort", "__setitem__"):
+                    return False
+                if isinstance(n, ast.Subscript) and isinstance(n.ctx, (ast.Store, ast.Del)) and isinstance(n.value, ast.Name) and n.value.id == name:
+                    return False
+        return True
 
     def _iter_unpack(self, itt, idx, env, depth):
         """What the idx-th name of a tuple target receives when iterating over a value with terms itt."""
